@@ -253,6 +253,18 @@ func timeProfileCall(g *G, fromZero, toZero bool, missing, s, e int) callSpec {
 		segs[uint8(k)] = types.Segment{Start: st, End: en}
 		ps = append(ps, []any{k, segPair(pst, pen)})
 	}
+	// entries under keys that are no segment numbers: a map with three (or more) entries that still lacks segment 1, 2 or 3
+	if g.r.Intn(2) == 0 {
+		for _, k := range []uint8{0, 4, 5, 255} {
+			if g.r.Intn(2) == 0 {
+				continue
+			}
+			st, pst := hhmmOf(60 * g.r.Intn(12))
+			en, pen := hhmmOf(60 * (12 + g.r.Intn(12)))
+			segs[k] = types.Segment{Start: st, End: en}
+			ps = append(ps, []any{int(k), segPair(pst, pen)})
+		}
+	}
 	wd, pw := g.weekdays()
 	id, linked := g.u8(), g.u8b(1)
 	profile := types.TimeProfile{ID: id, LinkedProfileID: linked, From: from, To: to, Weekdays: wd, Segments: segs}
